@@ -205,3 +205,8 @@ U_MASK = Unit(P + '/compute_near_field-image-mask', ['Mininec.compute_near_field
                                [P + '/compute_near_field[image pass mask]/image-pass'])])
 
 UNITS = [U_NF, U_MASK]
+
+# compute_near_field keeps nothing between calls: its result is a function of (model, frequency, request) -- the frame
+# clause is stated and checked with C14 (assigns: the function writes only e_field, h_field, near_field_coord, nf_param,
+# nf_power); without it the clause above would only hold for the first request on an object
+EXTRA_UNITS = [('contracts.C14', 'U_ASSIGNS')]
